@@ -345,15 +345,22 @@ class CallMixin:
             n = v.slen(obj.t)
             if lo is None and hi is None:
                 return obj
-            f = v.fn("sslice", v.Val, z3.IntSort(), z3.IntSort(), v.Val)
             norm = lambda x: z3.If(x < 0, z3.If(x + n < 0, 0, x + n), z3.If(x > n, n, x))
-            a = norm(lo) if lo is not None else z3.IntVal(0)
-            b = norm(hi) if hi is not None else n
+            a = z3.simplify(norm(lo)) if lo is not None else z3.IntVal(0)
+            b = z3.simplify(norm(hi)) if hi is not None else n
+            f = v.fn("sslice", v.Val, z3.IntSort(), z3.IntSort(), v.Val)
+            if not getattr(self, "_slice_done", False):
+                self._slice_done = True
+                s_, j_ = self.bv("sls"), self.bv("slj", z3.IntSort())
+                a_, b_ = self.bv("sla", z3.IntSort()), self.bv("slb", z3.IntSort())
+                self.global_facts += [
+                    z3.ForAll([s_, a_, b_], z3.And(v.slen(f(s_, a_, b_)) == z3.If(b_ - a_ < 0, 0, b_ - a_),
+                                                   v.ty(f(s_, a_, b_)) == z3.If(v.ty(s_) == v.cls["tuple"], v.cls["tuple"], v.cls["list"])),
+                              patterns=[f(s_, a_, b_)]),
+                    z3.ForAll([s_, a_, b_, j_], z3.Implies(z3.And(0 <= j_, j_ < b_ - a_), v.sat(f(s_, a_, b_), j_) == v.sat(s_, a_ + j_)),
+                              patterns=[v.sat(f(s_, a_, b_), j_)]),
+                ]
             r = f(obj.t, a, b)
-            j = self.bv("sj", z3.IntSort())
-            st.facts.append(v.slen(r) == z3.If(b - a < 0, 0, b - a))
-            st.facts.append(z3.ForAll([j], z3.Implies(z3.And(0 <= j, j < v.slen(r)), v.sat(r, j) == v.sat(obj.t, a + j)), patterns=[v.sat(r, j)]))
-            st.facts.append(v.ty(r) == v.ty(obj.t))
             return SV(r, obj.pt)
         raise Untranslatable(f"slice of {obj.pt}")
 
@@ -367,6 +374,42 @@ class CallMixin:
     def ev_SetComp(self, node, st, fr):
         r = self.comprehension(node, st, fr, "list")
         return SV(self.voc.set_of_seq(r.t), "set")
+
+    def ev_DictComp(self, node, st, fr):
+        """{k: f(k, v) for k, v in d.items()}  (keys unchanged, no filter): a fresh dict with the same keys in the same order"""
+        v = self.voc
+        if len(node.generators) != 1 or node.generators[0].ifs:
+            raise Untranslatable("dict comprehension with filter / several generators")
+        g = node.generators[0]
+        src = self.ev(g.iter, st, fr)
+        if src.pt != "ditems" or not (isinstance(g.target, ast.Tuple) and len(g.target.elts) == 2 and isinstance(g.target.elts[0], ast.Name)
+                                      and isinstance(node.key, ast.Name) and node.key.id == g.target.elts[0].id):
+            raise Untranslatable("dict comprehension not of the form {k: e for k, v in d.items()}")
+        d = src.py[1]
+        k0 = self.fresh("dkey")
+        saved_env = dict(st.env)
+        n_f = len(st.facts)
+        st.facts.append(v.dhas(d.t, k0))
+        self.bind_target(g.target.elts[0], SV(k0, "any"), st, fr)
+        self.bind_target(g.target.elts[1], SV(v.dget(d.t, k0), "any"), st, fr)
+        fr.in_comp = getattr(fr, "in_comp", 0) + 1
+        try:
+            val = self.ev(node.value, st, fr)
+        finally:
+            fr.in_comp -= 1
+        body_facts = st.facts[n_f + 1:]
+        del st.facts[n_f:]
+        st.env = saved_env
+        R = self.fresh("dcomp")
+        kk = self.bv("dk")
+        sub = lambda f: z3.substitute(f, (k0, kk))
+        st.facts.append(v.ty(R) == v.cls["dict"])
+        st.facts.append(v.dkeys(R) == v.dkeys(d.t))
+        st.facts.append(v.dlen(R) == v.dlen(d.t))
+        st.facts.append(z3.ForAll([kk], v.dhas(R, kk) == v.dhas(d.t, kk), patterns=[v.dhas(R, kk), v.dhas(d.t, kk)]))
+        st.facts.append(z3.ForAll([kk], z3.Implies(v.dhas(d.t, kk), z3.And([v.dget(R, kk) == sub(self.box(val))] + [sub(f) for f in body_facts])),
+                                  patterns=[v.dget(R, kk), v.dget(d.t, kk)]))
+        return SV(R, "dict")
 
     def comprehension(self, node, st, fr, pt):
         """[f(x) for x in xs (if p(x))]  ->  fresh list R with its strongest automatic invariant."""
@@ -402,9 +445,13 @@ class CallMixin:
         if src.pt == "dict" and False:
             pass
         self.bind_target(g.target, elem, st, fr, container=src)
-        conds = [self.evb(c, st, fr) for c in g.ifs]
-        cond = z3.And(conds) if conds else z3.BoolVal(True)
-        val = self.under(st, cond, lambda: self.ev(node.elt, st, fr)) if conds else self.ev(node.elt, st, fr)
+        fr.in_comp = getattr(fr, "in_comp", 0) + 1
+        try:
+            conds = [self.evb(c, st, fr) for c in g.ifs]
+            cond = z3.And(conds) if conds else z3.BoolVal(True)
+            val = self.under(st, cond, lambda: self.ev(node.elt, st, fr)) if conds else self.ev(node.elt, st, fr)
+        finally:
+            fr.in_comp -= 1
         body_facts = st.facts[n_f + 1:]
         del st.facts[n_f:]
         st.env = saved_env
